@@ -78,6 +78,10 @@ class CountingFile(io.BytesIO):
 
     def read(self, n=-1):
         pos = self.tell()
+        if self.like_os_file and n is not None and n > self.max_bytes:
+            # a file object of the operating system allocates the buffer for a read before it reads (io.BytesIO slices what
+            # is there): a request out of all proportion to the image is memory out of proportion to the input
+            raise MemoryError('read(%d) on a %d-byte image' % (n, len(self.getvalue())))
         b = super().read(n)
         self.nbytes += len(b)
         self.ncalls += 1
